@@ -10,6 +10,7 @@ import CatiiProofs.FromArrayWf
 import CatiiProofs.ColumnStack
 import CatiiProofs.Reindexed
 import CatiiProofs.Sliced
+import CatiiProofs.CollapsedDense
 /-!
 # C06 — index operations track NumPy on the dense array over any history
 
@@ -21,13 +22,13 @@ row counts incl. 0, while the combined rows fit 32 bits), `filtered(mask, n)` (b
 mask), `update(entries)` (cell assignment by any consistent dictionary of cells, incl. cells set to the
 common value), `reindexed(mapping)` (element-wise value mapping: injective, many-to-one, onto the common value,
 or the default), `sliced(*orders)` (column selection, any number of axes), the three entry-wise set updates (through the verified kernels of C08), the forced queries `get(key, force=True)` /
-`common_rowids` / `items(force=True)`, `column_stack` (= `numpy.column_stack`, any mix of inputs and commons) and construction from
-arrays (C01);
+`common_rowids` / `items(force=True)`, `column_stack` (= `numpy.column_stack`, any mix of inputs and commons),
+`collapsed(precedence, mapping)` (each row gets the first listed value present in it, else the last listed — for every
+precedence list, repeats included) and construction from arrays (C01);
 `history_partial` lifts them to arbitrary finite sequences against a NumPy-side specification
-(`specRun`).  The remaining operations of the property (`slices1d` — see C13 — and the dense content of `collapsed`, whose well-formedness is C07's `collapsed_wellformed`) are modelled in `CatiiModel/IIndex.lean` statement by statement and are tied to
-the real code by the correspondence harness after **every** step of every generated history,
-with the NumPy reference semantics as the oracle on the real code; their refinement lemmas are
-not yet theorems.
+(`specRun`).  `slices1d` is C13's theorem (`CatiiProps/C13`).  Every operation is also modelled in
+`CatiiModel/IIndex.lean` statement by statement and tied to the real code by the correspondence harness after
+**every** step of every generated history, with the NumPy reference semantics as the oracle on the real code.
 -/
 namespace Catii.C06
 open Catii.IIdx
@@ -283,6 +284,16 @@ theorem column_stack_is_numpy_column_stack (first : IIndex) (tl : List IIndex) (
 
 /-! ### the forced queries -/
 
+/-- `collapsed(precedence, mapping)`: "each row gets the first listed value present in it, else the last listed" —
+`rowHas i mp r p` says that some cell of row `r` holds `p` after the (optional) mapping.  Holds for every well-formed
+2-D receiver, every common value, every precedence list (negatives, values occurring nowhere, present values left
+out, values listed more than once) and every mapping; the result is also well-formed and 1-D of the same length -/
+theorem collapsed_is_first_listed (i : IIndex) (h : WF i) (hnd : i.ndim = 2) (prec : List Int)
+    (mapping : Option (List (Int × Int))) (res : IIndex) (hr : collapsed i prec mapping = .ok res) :
+    WF res ∧ res.shape = [i.nrows] ∧ ∀ last, prec.getLast? = some last → ∀ r < i.nrows,
+      denseAt res r [] = (prec.find? (rowHas i (mapGet mapping) r)).getD last :=
+  collapsed_refines i h hnd prec mapping res hr
+
 /-- `get(key, force=True)` lists exactly the rows where column `key[1:]` of the dense array equals `key[0]`,
 for listed values and for the common value alike -/
 theorem forced_get_is_where (i : IIndex) (h : WF i) (hnd : i.ndim ≤ 2) (k : Key) (hk : k.length = i.ndim)
@@ -309,5 +320,9 @@ example : (run ⟨[([1], [0, 2]), ([2], [1])], 0, [4]⟩
   decide +kernel
 example : OpsOK [] 4 [.shift (some 1), .copy, .append ⟨[([0], [1])], 2, [3]⟩, .shift none] :=
   ⟨wf_sound _ (by decide), rfl, by decide, trivial⟩
+
+-- `collapsed` on [[1,0],[0,0],[1,1]] with a value listed twice: rows get 0, 0, 1
+example : (collapsed ⟨[([1, 0], [0, 2]), ([1, 1], [2])], 0, [3, 2]⟩ [0, 1, 1, 2] none).toOption.map
+    (fun r => (List.range 3).map (fun row => denseAt r row [])) = some [0, 0, 1] := by decide +kernel
 
 end Catii.C06
